@@ -3,7 +3,7 @@ The numerical content (vector-Jacobian products, linearity, chaining) is torch's
 
 from __future__ import annotations
 
-from . import _layout, _pipe
+from . import _inst, _layout, _pipe
 from .C01 import cotangent_rule, idiom_rules, materialise_rule
 
 BLOCKS = "torchjd.autojac._transform"
@@ -23,7 +23,7 @@ def check(index, ctx):
                 e = _pipe.blocking(res)[0]
                 ctx.undecided("L", f"{run.label}", f"construct outside the analysed subset: {e['loc']} `{e['text']}`", e["loc"])
                 continue
-            n += _layout.check_layout(ctx, "L", res, only_functions=(BLOCKS,))
+            n += _layout.check_layout(ctx, "L", res, only_functions=(BLOCKS,), row_order=lambda run=run: _inst.verdict(index, run.entry, "order", chunk=bool(run.variant.get("chunk"))))
             materialise_rule(ctx, res, "G", index.get_function("torchjd.autojac._transform.jac.Jac._differentiate"))
             # prefix-sum slicing of the stacked Jacobian
             for e in _pipe.evs(res, "unpack"):
